@@ -25,7 +25,8 @@ CHECKS = {
              'TLC invariants; every state is replayed into soupsieve.select; random larger trees are recorded from the real '
              'code and validated by TLC against CssDecl (Trace_Select). Namespaced sibling rows with a default namespace in the caller map are part of the recorded traces; Trace_Parse binds the An+B texts (incl. the implied of *|*) to the IR. The recorded selects (on randomly respelled texts) are validated twice: against the declarative CssDecl (Trace_Select) and against the implementation-shaped pipeline computed entirely in TLA+ from the characters (Trace_Pipe: Lexer, ParseSel, Ir!Compile, Ir!AlgoList).',
         design_ref='§6 C02',
-        note='Bounded: |a|,|b| <= 7 exhaustively plus {100, 40000} (TLC 32-bit integers); rows <= 5; CssDecl.NthHolds trusted as '
+        note='Also: iframe children as siblings; `of S` under a lazy iselect() whose consumer changes classes between elements (shared with C04). '
+             'Bounded: |a|,|b| <= 7 exhaustively plus {100, 40000} (TLC 32-bit integers); rows <= 5; CssDecl.NthHolds trusted as '
              'the reading of Selectors 4 / CSS Syntax 3 An+B.',
         technique='TLA+ An+B definition + micro-syntax, TLC enumeration replayed into the code; TLC trace validation of recorded selects; Trace_Parse binding'),
     'C03': dict(
@@ -48,7 +49,7 @@ CHECKS = {
              'html5lib; meta language, iframes, radio groups, forms) x 20 selectors; the real code executes them and History.tla '
              '- a law-level trace spec in which the match relation is an unlogged variable inferred by TLC - accepts iff one '
              'relation (seeded by a pristine re-parse asked element by element) explains every observation and the document '
-             'serialisation, node identities and attributes never changed. An alone part compares select on the document and on subtrees with match on each element alone, exhaustively over the pools; a mutation part changes the tree through the bs4 API between two queries and compares with a pristine parse of the changed tree (Session.tla: Mutate, table lifetime; process-lifetime tables refuted as a negative model).',
+             'serialisation, node identities and attributes never changed. An alone part compares select on the document and on subtrees with match on each element alone, exhaustively over the pools; a mutation part changes the tree through the bs4 API between two queries and compares with a pristine parse of the changed tree (Session.tla: Mutate, table lifetime; process-lifetime tables refuted as a negative model). A process part binds that negative model: the same documents and selectors in fresh interpreters in four document orders must give the same answers. A lazy part consumes iselect() element by element while the consumer edits classes: every element is judged against the tree as it is when the walk reaches it.',
         design_ref='§6 C04',
         note='Histories: exhaustive pairs over reduced pools, sampled up to length 6-8; fixed document/selector pools chosen for '
              'the memoised facts; observations compared through abstract node positions.',
@@ -88,7 +89,8 @@ CHECKS = {
              'single-threaded value and the cache must hold fresh parses. In addition one thread is pre-empted at Python line events '
              '(compile, select, match, filter pairs) by a second thread running to completion. Every bounded memo of the library is filled before the replays (capacity state), alias definitions carry salted attribute names, and the pairs that go through shared mutable state are pre-empted at every line in both tiers; a single-threaded call that fails after an interleaving counts as corrupted shared state. LazyInit.tla states process start-up as a state (eager / idempotent builds hold T-FirstUse, the unguarded lazy build is refuted); a cold-start part pre-empts the FIRST compile of a fresh interpreter at every line of the functions through which shared objects are reached (every third line elsewhere; every line in the thorough tier) while a second thread makes its first call; process-wide interpreter state is compared around every replay; 40-level nested selectors and documents needing different calendar facts are among the pre-emption pairs.',
         design_ref='§6 C14',
-        note='2 threads x 1-2 calls (quick), 3 threads / 2 calls with bounded switches (thorough); line-level pre-emption with one '
+        note='Also: compile pairs that go through an internal rewrite ([a!=v], state pseudo-classes) at every line; an eviction storm (600 never-seen-before matches by the second thread while the first is parked at every line: check-then-act on bounded process-wide tables). '
+             '2 threads x 1-2 calls (quick), 3 threads / 2 calls with bounded switches (thorough); line-level pre-emption with one '
              'pre-emption; races inside a single bytecode or inside C code (lru_cache, re) cannot be forced from Python.',
         technique='TLA+ interleaving model checked by TLC (positive + negative placement); every TLC behaviour replayed as a forced thread schedule on the real code'),
     'C13': dict(
@@ -204,7 +206,8 @@ CHECKS = {
              'negative configurations); the real pretty() runs on ~280 compiled selectors under a deterministic line-event budget and must equal '
              'repr modulo whitespace; DEBUG is checked differentially on ~200 selectors x 3 documents and every recorded error. The error-context enumeration also runs over an alphabet with characters that are not line breaks (FF, VT, NEL, LS, PS); the pretty pool has quote- and backslash-heavy values and a wall-clock watchdog besides the line-event budget.',
         design_ref='§6 C20',
-        note='Patterns <= 6-8 over a 3-symbol alphabet, e2e patterns <= ~60 characters; offsets on the LF of a CR LF pair and the literal '
+        note='DEBUG runs print into a strict UTF-8 stream (lone surrogates, controls, non-BMP characters in the pool). '
+             'Patterns <= 6-8 over a 3-symbol alphabet, e2e patterns <= ~60 characters; offsets on the LF of a CR LF pair and the literal '
              'context format are drift only; non-termination is a settrace budget (300-2000 x len line events), not a proof about the Python loop.',
         technique='TLA+ error-context definition + loop model with liveness and negative configurations; TLC enumeration replayed into the code; TLC trace validation of recorded diagnostics'),
     'C10': dict(
